@@ -353,6 +353,32 @@ Theorem C07_session_prefix_irrelevant :
 Proof. exact session_two_prefixes. Qed.
 Print Assumptions C07_session_prefix_irrelevant.
 
+(* ---- the caller's decimal context: for ALL decimal contexts e1 e2 of the calling thread a cast
+   gives the same result, except that a DECIMAL column declared without precision takes the
+   caller's precision (by design: FlatColumn.__init__ reads decimal.getcontext().prec) - so
+   there the two contexts must agree on the precision, and nothing else of them matters.  Under
+   the default context [c07_run_env] is [c07_run].  (F-C07-6, the quantum computed in the caller's
+   context, was fixed by 056ea2a: the premise env_ok of round 5 is gone.)  The correspondence
+   evaluates [c07_run_env] on casts the implementation made under non-default contexts. ---- *)
+Theorem C07_env_independent :
+  forall (e1 e2 : denv) (c : cast_case),
+  ((reads_env_prec c = false \/ env_prec e1 = env_prec e2) -> c07_run_env e1 c = c07_run_env e2 c) /\
+  (reads_env_prec c = false -> c07_run_env e1 c = c07_run c) /\
+  c07_run_env default_env c = c07_run c.
+Proof. exact env_spec. Qed.
+Print Assumptions C07_env_independent.
+
+Example C07_env_nonvacuous :
+  let w := [48; 46; 49; 50; 51; 52; 53; 54; 55; 56; 57; 48; 49; 50; 51; 52; 53]%N in
+  c07_run_env (mkenv 9 999999 (-5) 0 1 false) (false, T_DECIMAL, nokw, PStr w, notab, RErr XOther)
+    = ROk (PDecimal (DFin false 123456789012345000000 (-21))) /\
+  reads_env_prec (true, T_DECIMAL, nokw, PStr [49; 46; 53]%N, notab, RErr XOther) = true /\
+  c07_run_env (mkenv 9 999999 (-999999) 0 0 false) (true, T_DECIMAL, nokw, PStr [49; 46; 53]%N, notab, RErr XOther)
+    = ROk (PDecimal (DFin false 1500000 (-6))) /\
+  c07_run_env default_env (true, T_DECIMAL, nokw, PStr [49; 46; 53]%N, notab, RErr XOther)
+    = ROk (PDecimal (DFin false 1500000000000000000000 (-21))).
+Proof. exact env_witness. Qed.
+
 (* ---- non-vacuity ---- *)
 (* sessions: VARCHAR[3] resolved and declared, then the bare VARCHAR cast keeps the whole text;
    names from_name rejects; the bare name ARRAY has VARCHAR elements *)
